@@ -4,8 +4,8 @@ from checks.engine_common import run_engine
 META = {
     "property_id": "C02",
     "technique": "Coq proof over a Gallina model of the build engine + history correspondence with fresh-process builds",
-    "level_text": 'Theorems: noop_rebuild (after a fully successful build a rebuild executes nothing, all up to date, state unchanged up to sim), builds_depend_only_on_live_state, load_refresh_invisible. Correspondence + oracle: rebuilds of unchanged trees, same-content rewrites, cosmetic edits, other-package edits execute exactly what the model predicts.',
-    "level_note": "Trusted: as C01. irrelevant_edit is not yet a theorem (decided by correspondence). Edits inside the same BUILD file that add or remove statements shift bytecode indices and do re-run its targets: outside the property's guarantees, modelled as environment changes.",
+    "level_text": 'Theorems: noop_rebuild (after a fully successful build a rebuild in a fresh process executes nothing, everything is reported up to date, state unchanged up to sim), irrelevant_edit (trees that agree on what the closure mentions build it identically), builds_depend_only_on_live_state, load_refresh_invisible. Correspondence + oracle: rebuilds of unchanged trees, same-content rewrites, cosmetic edits, other-package edits, edits inside source directories execute exactly what the model predicts.',
+    "level_note": "Trusted: as C01. Edits that add or remove statements inside a BUILD file shift bytecode indices and do re-run its targets: outside the property's guarantees, modelled as environment changes (file shape + position).",
     "design_ref": "DESIGN.md §6 C02",
 }
 
